@@ -95,6 +95,9 @@ type POResult struct {
 	Failed   []string // labels of assertion events violated in the model
 	FailedEv []*POEvent
 	Races    []PORace
+	Sched    []*POEvent // executed events of the model in clock order
+	Replay   string     // "" not replayed, "ok", or why the schedule replay failed
+	ReplayLabels map[string]bool // assertion labels that failed again in the schedule replay
 	KnownHit []string // known findings matched (and excluded) while answering this query
 	Script   string
 }
@@ -493,6 +496,9 @@ func (po *PO) Solve(q POQuery, timeout time.Duration) POResult {
 			}
 		}
 		sort.Slice(exs, func(i, j int) bool { return exs[i].c < exs[j].c })
+		for _, x := range exs {
+			res.Sched = append(res.Sched, x.e)
+		}
 		for _, x := range exs {
 			e := x.e
 			if e.Kind == "root" {
